@@ -13,7 +13,12 @@ theorem tie_truncate_back (n : Nat) (s : Sys) (h : Inv s.buf) : Gen.truncate_bac
   simp only [Gen.truncate_back, truncateBack, getBuf_bind, ite_run, bind_assoc_run, pure_run, pure_bind_run]
   split
   · rfl
-  · simp only [bind_run, tie_drop_range n s.buf.size s h]
+  · rename_i hz
+    have hn : n < s.buf.size := by omega
+    -- a body that guards the call with `!range.is_empty()` (always true here) is the same body
+    try simp only [hn, not_true_eq_false, not_false_eq_true, Classical.not_not, if_true, ite_true, ite_run, ite_bind,
+      bind_assoc_run, pure_bind_run]
+    simp only [bind_run, tie_drop_range n s.buf.size s h]
     cases dropRange n s.buf.size s with
     | mk r s1 => cases r with
       | error p => rfl
